@@ -64,7 +64,7 @@ CHECKS = {
    "Receiver: generated walks around the 896 window and exhaustive sequences over the boundary alphabet against seen-set/max model, both directions (never accept twice, never refuse an acceptable id); concurrent receivers and senders on 2-8 OS threads with order-independent oracles; StaleKey notifications through all map entry points.",
    "Trusted base: the set+window model in c19.rs; thread interleavings are whatever the OS produces (x86), not enumerated.", "DESIGN.md section 4 C19"),
  "C20": ("dcsim", "property-based testing of s2n-quic-dc streams in the bach simulation (generated workloads x MTUs x fault-injecting queue allocator / lossy network), payload PRF oracle and bounded-time completion on the virtual clock",
-   "Generated dc stream workloads (request/response sizes, MTU 1250-32k, TCP and UDP transports, loss/reorder/duplicate tapes, queue-allocation faults) on the real dc stream code in bach; every byte read is compared with a PRF, streams must finish or fail within a computed virtual-time bound, panics in repository code are violations.",
+   "Generated dc stream workloads (request/response sizes, MTU 1250-32k, TCP and UDP transports, loss/reorder/duplicate tapes, queue-allocation faults) on the real dc stream code in bach; every byte read is compared with a PRF, streams must finish or fail within a computed virtual-time bound, panics in repository code are violations. Complete enumerations on fixed exchanges: every single datagram fault, every (packet, first retransmissions) loss pair of fixed dialogues, every lost datagram x a grid of instants at which the peer goes away for ever, every cut position of a TCP connection.",
    "Trusted base: the bach simulator, the harness's fault-injecting allocator and workload drivers (harness/crates/dcsim).", "DESIGN.md section 4 C20"),
 }
 
